@@ -1,7 +1,24 @@
-//! Correspondence harness of property C04 (stub).
-use mzkh::Ctx;
+//! Correspondence harness of property C04 (native-field gadgets complete and sound).
+//!
+//! * `h-c04 --dump-gates FILE`: runs the REAL `NativeChip::configure` / `Pow2RangeChip::configure`
+//!   and writes every gate polynomial and lookup argument as an expression AST (JSON); the
+//!   translator `translators/c04_gates.py` renders it as Lean terms.
+//! * `h-c04 --tier T --seed S --out DIR`: correspondence + oracle run (see `run.rs`).
+mod gates;
+mod gen;
+mod prog;
+mod rec;
+mod run;
+
+pub type F = midnight_curves::Fq;
 
 fn main() {
-    let ctx = Ctx::from_args("C04");
+    let args: Vec<String> = std::env::args().collect();
+    if args.len() >= 3 && args[1] == "--dump-gates" {
+        gates::dump(&args[2]);
+        return;
+    }
+    let mut ctx = mzkh::Ctx::from_args("C04");
+    run::run(&mut ctx);
     ctx.finish();
 }
